@@ -21,6 +21,7 @@ REPLAYS = ROOT / "replays"
 CORPUS = ROOT / "corpus"
 FINDINGS = ROOT / "known_findings.json"
 DRIVER = LEAN / ".lake" / "build" / "bin" / "avdrv"
+CASE_TIMEOUT = 30
 ALLOWED_AXIOMS = {"propext", "Classical.choice", "Quot.sound"}
 HYGIENE_RE = re.compile(
     r"\bsorry\b|\badmit\b|^\s*axiom\s|native_decide|bv_decide|implemented_by|\bunsafe\s|maxHeartbeats\s+0"
@@ -198,9 +199,19 @@ def _impl_worker(args):
     modname, chunk = args
     mod = importlib.import_module(modname)
     out = []
+    import signal
+
+    def _alarm(signum, frame):
+        raise TimeoutError("case did not finish within %ds" % CASE_TIMEOUT)
+
+    signal.signal(signal.SIGALRM, _alarm)
     for case in chunk:
         try:
-            out.append(mod.observe(case))
+            signal.alarm(CASE_TIMEOUT)
+            try:
+                out.append(mod.observe(case))
+            finally:
+                signal.alarm(0)
         except BaseException as exc:  # noqa: B036 - harness failure, reported as such
             import traceback
 
